@@ -276,7 +276,7 @@ def files_for(run):
     fx = [f for f in fx if any(k in f for k in keep)]
     # z-slice layout with small blocks (16x16x4 at 32 bit) keeps the model run short in the quick tier
     adv = [c for c in c02.written_files(run, 'quick') if 'b(16, 16, 4)' in c.label or 'b(4, 8, 32)' in c.label]      # z-slice layout; a (4,N,M) layout with several plane sets
-    return session.load_files([session.FileCase(p) for p in fx] + adv + c02.written_2d(run, 'quick')[:1] + crafted(run), run)
+    return session.load_files([session.FileCase(p) for p in fx] + adv + c02.written_2d(run, 'quick')[:2] + crafted(run), run)       # 2-D: trace groups of 4 (fast path) and of 16 (windowed reads), both longer than a sample block
 
 
 def crafted(run):
